@@ -59,6 +59,21 @@ def origin(exc):
 PER_ATOM_EXTRA = ("occupancies", "bfactors", "chainids", "velocities", "segid", "resid", "species")
 
 
+def open_descriptors(path):
+    """File descriptors of this process that refer to `path` (Linux /proc)."""
+    out = []
+    try:
+        for name in os.listdir("/proc/self/fd"):
+            try:
+                if os.readlink(f"/proc/self/fd/{name}") == path:
+                    out.append(int(name))
+            except OSError:
+                continue
+    except OSError:
+        pass
+    return out
+
+
 def consistent(obj):
     """Problems with mutually inconsistent shapes in a returned IOData object."""
     out = []
@@ -150,6 +165,16 @@ def judge(part, api, fmtname, path, fmt, kind_label, info, limit, abandon=None):
     else:
         label = type(exc).__name__
         part.violation("exception-type", f"{fmtname}:{api}:escapes-{type(exc).__name__}:{origin(exc)}", info, f"{fmtname} {api} [{info['fault']}]: {type(exc).__name__} escaped: {str(exc)[:200]!r}")
+    # any descriptor of this process still pointing at the file (opened by whatever route), while the outcome is still referenced
+    leaked = open_descriptors(path)
+    if leaked and not any(lit.fh is not None and not lit.fh.closed for lit in lits):
+        part.violation("closed", f"{fmtname}:{api}:descriptor-left-open" + (f":abandoned-after-{abandon}" if abandon is not None else ""), info,
+                       f"{fmtname} {api} [{info['fault']}]: {len(leaked)} file descriptor(s) on the input file still open after {label}")
+        for fd in leaked:
+            try:
+                os.close(fd)
+            except OSError:
+                pass
     for lit in lits:
         if lit.fh is not None and not lit.fh.closed:
             part.violation("closed", f"{fmtname}:{api}:file-left-open" + (f":abandoned-after-{abandon}" if abandon is not None else ""), info, f"{fmtname} {api} [{info['fault']}]: file handle still open after {label}")
@@ -193,7 +218,7 @@ def worker(chunk, seed, tier):
             elif group == "table-rows":
                 muts = fe.table_row_deletions(text, max_tables=None if tier == "thorough" else 150)
             elif group == "counters":  # every integer token off by one: counts that disagree with what follows
-                muts = fe.token_substitutions(text, menu=["DEC1", "INC1", "HUGEINT"], max_tokens=None if tier == "thorough" else 4000)
+                muts = fe.token_substitutions(text, menu=["DEC1", "INC1", "HUGEINT", "ZERO"], max_tokens=None if tier == "thorough" else 4000)
             elif group.startswith("truncate-lines-every"):
                 step = int(group.rsplit("-", 1)[1])
                 muts = (m for i, m in enumerate(fe.line_truncations(text)) if i % step == 0)
@@ -387,7 +412,7 @@ def run(ctx):
     ctx.exhaustive = not capped
     ctx.rule = (
         f"every line-boundary truncation of every generated file and of every corpus file with <= {small_limit} lines (larger files: every n-th line, listed under capped_files); every byte truncation of "
-        "generated files <= 6000 bytes; every single-line delete/duplicate/swap and every single-token substitution from an 11-entry menu on generated (and small corpus) files; on larger files every integer token off by one or beyond 64 bits (counters) and the first/middle/last row deleted from every table (run of equally shaped lines); empty, binary and "
+        "generated files <= 6000 bytes; every single-line delete/duplicate/swap and every single-token substitution from a 12-entry menu on generated (and small corpus) files; on larger files every integer token off by one, zero or beyond 64 bits (counters) and the first/middle/last row deleted from every table (run of equally shaped lines); empty, binary and "
         "newline-only content under every name; every generated file's content under every other format's name; explicit fmt= for every module. Each mutated file is loaded with load_one and, where "
         "available, load_many (exhausted; every 7th truncation also closed and dropped after 0, 1 and 2 requested frames). Non-trivial/distinct = (file, fault group, outcome class)."
     )
